@@ -642,13 +642,50 @@ static void iauth_xquery_user_info(struct iauth_request *req)
     iauth_xquery_check(req, IAUTH_GOT_USER_INFO);
 }
 
+/** Gives back the service references that \a req still holds.
+ *
+ * A client that goes away (withdrawn, registered, accepted or
+ * rejected) no longer waits for anybody.  Without this, a service
+ * that a reload retired while such a client had a query outstanding
+ * kept its slot in the table for ever.
+ */
+static void iauth_xquery_release(struct iauth_request *req)
+{
+    struct iauth_xquery_client *cli;
+    struct iauth_xquery_service *srv;
+    void *ptr;
+    unsigned int ii;
+
+    ptr = &iauth_xquery;
+    cli = set_find(&req->data, &ptr);
+    if (!cli)
+        return;
+
+    for (ii = 0; (ii < iauth_xquery_services.used) && cli->ref_mask; ++ii) {
+        if ((cli->ref_mask & (1u << ii)) == 0)
+            continue;
+        cli->ref_mask &= ~(1u << ii);
+        srv = iauth_xquery_services.vec[ii];
+        if ((srv != NULL) && (srv->refs > 0) && (--srv->refs == 0))
+            iauth_xquery_unref(ii);
+    }
+}
+
+static void iauth_xquery_registered(struct iauth_request *req,
+                                    UNUSED_ARG(int from_ircd))
+{
+    iauth_xquery_release(req);
+}
+
 static struct iauth_module iauth_xquery = {
     .owner = "iauth_xquery",
+    .disconnect = iauth_xquery_release,
     .field_change = iauth_xquery_check,
     .get_config = iauth_xquery_report_config,
     .get_stats = iauth_xquery_report_stats,
     .new_client = iauth_xquery_new_client,
     .password = iauth_xquery_password,
+    .registered = iauth_xquery_registered,
     .user_info = iauth_xquery_user_info,
     .x_reply = iauth_xquery_x_reply,
     .x_unlinked = iauth_xquery_x_unlinked,
